@@ -373,12 +373,12 @@ func commandTable() []cmdSpec {
 func runBlackBox(r *hx.Result, cfg hx.Config, rng *rand.Rand) {
 	b := &bb{r: r, cfg: cfg, rng: rng}
 	var err error
-	b.sa, err = srv.Start(filepath.Join(cfg.Work, "c17-json"), "--appendonly", "no")
+	b.sa, err = srv.Start(filepath.Join(cfg.Work, "c17-json"), "--appendonly", "yes")
 	if err != nil {
 		panic(err)
 	}
 	defer b.sa.Kill()
-	b.sb, err = srv.Start(filepath.Join(cfg.Work, "c17-resp"), "--appendonly", "no")
+	b.sb, err = srv.Start(filepath.Join(cfg.Work, "c17-resp"), "--appendonly", "yes")
 	if err != nil {
 		panic(err)
 	}
